@@ -12,7 +12,12 @@
 #define VF_CONTRACTS_BN_MOD_H
 #ifndef VF_REPLAY
 
-#define VF_RD_OK(p)	1	/* bn_mod_rd_data_p is unused by BN_MOD_REDUCE_ALGO_BASIC (may be NULL) */
+#define VF_RD_OK(p)	1
+#ifdef VF_BN_INV_NO_VALUE	/* jobs that only use / prove status, frame and range of the inverse */
+#define VF_INV_VALUE(c)	1
+#else
+#define VF_INV_VALUE(c)	(c)
+#endif	/* bn_mod_rd_data_p is unused by BN_MOD_REDUCE_ALGO_BASIC (may be NULL) */
 #define VF_BN_3PRE(bn, n, m)	(VF_BN_IN(bn) && VF_BN_IN(n) && VF_BN_IN(m) &&		\
 	VF_BN_SEP(bn, n) && (bn) != (m) && VF_BN_SEP(bn, m))
 
@@ -131,15 +136,90 @@ __CPROVER_ensures(__CPROVER_return_value == 0 || __CPROVER_return_value == EOVER
 __CPROVER_ensures((VF_BN_OLDVAL(d) == 0 || VF_BN_VAL(*m) == 0 || VF_BN_OLDVAL(d) >= VF_BN_VAL(*m)) ==> __CPROVER_return_value == EINVAL)
 __CPROVER_ensures(__CPROVER_return_value == 0 ==> VF_BN_WF(*bn))
 ;
-/* binary modular inverse: domain 0 < bn < m, otherwise EINVAL (the value clause
- * bn' * bn == 1 (mod m) is not part of the proved contract, see not_covered) */
+/* binary modular inverse bn = bn^-1 mod m.  Domain: 0 < bn < m, m odd, gcd(bn, m) == 1; anything
+ * else is EINVAL (never a wrong value, never a hang).  On success 0 < bn' < m and bn' * bn == 1 (mod m). */
 static inline int
 bn_mod_inv_bin(bn_p bn, bn_p m, bn_mod_rd_data_p mod_rd_data)
 __CPROVER_requires(VF_BN_BINOP_PRE(bn, m) && bn != m)
 __CPROVER_assigns(VF_BN_FRAME(bn))
 __CPROVER_ensures(__CPROVER_return_value == 0 || __CPROVER_return_value == EOVERFLOW || __CPROVER_return_value == EINVAL)
-__CPROVER_ensures((VF_BN_OLDVAL(bn) == 0 || VF_BN_VAL(*m) == 0 || VF_BN_OLDVAL(bn) >= VF_BN_VAL(*m)) ==> __CPROVER_return_value == EINVAL)
+__CPROVER_ensures((VF_BN_OLDVAL(bn) == 0 || VF_BN_VAL(*m) == 0 || VF_BN_OLDVAL(bn) >= VF_BN_VAL(*m) ||
+    (VF_BN_VAL(*m) & 1) == 0) ==> __CPROVER_return_value == EINVAL)
+__CPROVER_ensures(__CPROVER_return_value == 0 ==> (VF_BN_WF(*bn) && VF_BN_VAL(*bn) != 0 && VF_BN_VAL(*bn) < VF_BN_VAL(*m)))
+__CPROVER_ensures(VF_INV_VALUE(__CPROVER_return_value == 0 ==>
+    (VF_BN_VAL(*bn) * VF_BN_OLDVAL(bn)) % VF_BN_VAL(*m) == 1))
+;
+
+/* ------------------------------------------------------------------ second round: loop functions */
+/* ghost index for "greatest" in the gcd contracts */
+vf_bnv_t vf_bn_gcd_kv;
+
+/* bn = bn^exp (no modulus).  As coded: exponent 0 -> 1; for exp >= 3 EOVERFLOW when digits*exp > count */
+static inline int
+bn_exp_digit(bn_p bn, bn_digit_t exp)
+__CPROVER_requires(VF_BN_IN(bn))
+__CPROVER_assigns(VF_BN_FRAME(bn))
+__CPROVER_ensures(__CPROVER_return_value == 0 || __CPROVER_return_value == EOVERFLOW)
+__CPROVER_ensures((exp >= 3 && __CPROVER_old(bn->digits) * exp > bn->count) ==> __CPROVER_return_value == EOVERFLOW)
 __CPROVER_ensures(__CPROVER_return_value == 0 ==> VF_BN_WF(*bn))
+__CPROVER_ensures((__CPROVER_return_value == 0 && exp == 0) ==> VF_BN_VAL(*bn) == 1)
+__CPROVER_ensures((__CPROVER_return_value == 0 && exp == 1) ==> VF_BN_VAL(*bn) == VF_BN_OLDVAL(bn))
+__CPROVER_ensures((__CPROVER_return_value == 0 && exp == 2) ==> VF_BN_VAL(*bn) == VF_BN_OLDVAL(bn) * VF_BN_OLDVAL(bn))
+;
+
+/* bn = floor(sqrt(bn)) */
+static inline int
+bn_sqrt1(bn_p bn)
+__CPROVER_requires(VF_BN_IN(bn))
+__CPROVER_assigns(VF_BN_FRAME(bn))
+__CPROVER_ensures(__CPROVER_return_value == 0)
+__CPROVER_ensures(VF_BN_WF(*bn))
+__CPROVER_ensures(VF_BN_VAL(*bn) * VF_BN_VAL(*bn) <= VF_BN_OLDVAL(bn) &&
+    VF_BN_OLDVAL(bn) < (VF_BN_VAL(*bn) + 1) * (VF_BN_VAL(*bn) + 1))
+;
+
+/* bn = gcd(a, b); gcd(a, 0) = a, gcd(0, b) = b.  bn is a result-only object distinct from a and b;
+ * as coded its capacity `count` is overwritten with that of an operand. */
+#define VF_GCD_BN_CONTRACT(fn)								\
+static inline int fn(bn_p bn, bn_p a, bn_p b)						\
+__CPROVER_requires(VF_BN_OK(bn) && VF_BN_CNT_OK(bn) && VF_BN_IN(a) && VF_BN_IN(b) && VF_BN_SEP(a, b) &&	\
+    !__CPROVER_same_object(bn, a) && !__CPROVER_same_object(bn, b))			\
+__CPROVER_assigns(bn->count, VF_BN_FRAME(bn))						\
+__CPROVER_ensures(__CPROVER_return_value == 0 || __CPROVER_return_value == EOVERFLOW)	\
+__CPROVER_ensures(__CPROVER_return_value == 0 ==> VF_BN_WF(*bn))			\
+__CPROVER_ensures((__CPROVER_return_value == 0 && VF_BN_VAL(*a) == 0) ==> VF_BN_VAL(*bn) == VF_BN_VAL(*b))	\
+__CPROVER_ensures((__CPROVER_return_value == 0 && VF_BN_VAL(*b) == 0) ==> VF_BN_VAL(*bn) == VF_BN_VAL(*a))	\
+__CPROVER_ensures((__CPROVER_return_value == 0 && (VF_BN_VAL(*a) != 0 || VF_BN_VAL(*b) != 0)) ==>	\
+    (VF_BN_VAL(*bn) != 0 && VF_BN_VAL(*a) % VF_BN_VAL(*bn) == 0 && VF_BN_VAL(*b) % VF_BN_VAL(*bn) == 0))	\
+__CPROVER_ensures((__CPROVER_return_value == 0 && (VF_BN_VAL(*a) != 0 || VF_BN_VAL(*b) != 0) &&	\
+    vf_bn_gcd_kv != 0 && VF_BN_VAL(*a) % vf_bn_gcd_kv == 0 && VF_BN_VAL(*b) % vf_bn_gcd_kv == 0) ==>	\
+    vf_bn_gcd_kv <= VF_BN_VAL(*bn))							\
+;
+VF_GCD_BN_CONTRACT(bn_gcd)
+VF_GCD_BN_CONTRACT(bn_gcd_bin)
+
+/* Legendre symbol: -1, 0, 1, or an errno (EINVAL for an even modulus, callee errors); works on copies */
+static inline int
+bn_mod_legendre(bn_p bn, bn_p m, bn_mod_rd_data_p mod_rd_data)
+__CPROVER_requires(VF_BN_IN(bn) && VF_BN_IN(m) && VF_BN_SEP(bn, m))
+__CPROVER_assigns()
+__CPROVER_ensures(__CPROVER_return_value == -1 || __CPROVER_return_value == 0 || __CPROVER_return_value == 1 ||
+    __CPROVER_return_value == EINVAL || __CPROVER_return_value == EOVERFLOW)
+__CPROVER_ensures((VF_BN_VAL(*m) & 1) == 0 ==> __CPROVER_return_value == EINVAL)
+;
+
+/* bn = sqrt(bn) mod m, m an odd prime.  0 on success, -1 "no root found", errno otherwise.
+ * Whatever branch computes the candidate, the function squares it and compares with the reduced
+ * input before it reports success - hence the value clause. */
+static inline int
+bn_mod_sqrt(bn_p bn, bn_p m, bn_mod_rd_data_p mod_rd_data)
+__CPROVER_requires(VF_BN_BINOP_PRE(bn, m) && bn != m)
+__CPROVER_assigns(VF_BN_FRAME(bn))
+__CPROVER_ensures(__CPROVER_return_value == 0 || __CPROVER_return_value == -1 ||
+    __CPROVER_return_value == EINVAL || __CPROVER_return_value == EOVERFLOW)
+__CPROVER_ensures((VF_BN_VAL(*m) & 1) == 0 ==> __CPROVER_return_value == EINVAL)
+__CPROVER_ensures(__CPROVER_return_value == 0 ==> (VF_BN_WF(*bn) && VF_BN_VAL(*bn) < VF_BN_VAL(*m) &&
+    (VF_BN_VAL(*bn) * VF_BN_VAL(*bn)) % VF_BN_VAL(*m) == VF_BN_OLDVAL(bn) % VF_BN_VAL(*m)))
 ;
 
 #endif /* !VF_REPLAY */
